@@ -95,4 +95,53 @@ theorem ch_dispatch_name_only (E : Env) (r : ConsistentHashing) (b1 b2 : Crng.Co
   rw [ch_dispatch_trace, ch_dispatch_trace, if_pos h1, if_pos h2, hn]
   exact ⟨_, rfl, rfl⟩
 
+/-! ### destination.addrInstanceSplit -/
+theorem split_go_eq (s cur : Crng.Code.Bytes) : Lib.strings_Split.go 58 s cur = splitColon.go s cur := by
+  induction s generalizing cur with
+  | nil => rfl
+  | cons x t ih =>
+    simp only [Lib.strings_Split.go, splitColon.go]
+    split <;> simp [ih]
+
+theorem split_eq (s : Crng.Code.Bytes) : Lib.strings_Split s [58] = splitColon s := by
+  simp [Lib.strings_Split, splitColon, split_go_eq]
+
+theorem go_length (s cur : Crng.Code.Bytes) : (splitColon.go s cur).length = (s.filter (· == 58)).length + 1 := by
+  induction s generalizing cur with
+  | nil => rfl
+  | cons x t ih =>
+    simp only [splitColon.go]
+    by_cases h : (x == 58) = true
+    · simp [h, ih]
+    · simp [h, ih]
+
+theorem count_eq (s : Crng.Code.Bytes) : Lib.strings_Count s [58] = ((splitColon s).length : Int) - 1 := by
+  simp [Lib.strings_Count, splitColon, go_length]
+
+theorem split_ne_nil (s : Crng.Code.Bytes) : splitColon s ≠ [] := by
+  have := go_length s []
+  intro h
+  simp [splitColon] at h
+  rw [h] at this; simp at this
+
+/-- **addrInstanceSplit (regenerated)**: the instance is the third of exactly three colon-separated parts, else empty — the
+`inst` of the model's `nodeOfAddr` — and an address without exactly two colons is left as it is -/
+theorem addrInstanceSplit_instance (addr : Crng.Code.Bytes) : (addrInstanceSplit addr).2 = (nodeOfAddr addr).inst := by
+  unfold addrInstanceSplit nodeOfAddr
+  simp only [split_eq, count_eq]
+  have hne := split_ne_nil addr
+  rcases hs : splitColon addr with _ | ⟨a, _ | ⟨b, _ | ⟨c, _ | ⟨d, r⟩⟩⟩⟩
+  · exact absurd hs hne
+  · simp; rfl
+  · simp; rfl
+  · simp [Lib.idx]
+  · have h5 : ¬ (((r.length : Int) + 1 + 1 + 1 + 1 - 1) = 2) := by omega
+    simp [h5]; rfl
+
+theorem addrInstanceSplit_addr (addr : Crng.Code.Bytes) (h : (splitColon addr).length ≠ 3) : (addrInstanceSplit addr).1 = addr := by
+  unfold addrInstanceSplit
+  simp only [count_eq]
+  have : ¬ (((splitColon addr).length : Int) - 1 == 2) = true := by simp; omega
+  simp [this]
+
 end Crng.Tie.CodeHasher
